@@ -47,6 +47,14 @@ def run_components(run, gens, tier, seed, replay, exe, timeout_case=60, label=""
             fails = owner[c.name].evaluate_property(c, io)
         except Exception as ex:
             fails = ["evaluate_property raised %r (implementation output malformed: %s)" % (ex, io["status"])]
+        in_scope = getattr(owner[c.name], "sanitizer_scope", lambda case: True)
+        if not fails and io.get("status") == "ok" and in_scope(c):
+            # a sanitizer report outside the isolated queries (constructors, save, load, in-process calls; the process
+            # continues in recover mode) is a misbehaviour of the implementation on a generated, valid input
+            reps = [e for e in io.get("err", []) if "ERROR: AddressSanitizer" in e or "WARNING: ThreadSanitizer" in e]
+            if reps:
+                site = next((e.strip() for e in io["err"] if e.strip().startswith("#0 ") or e.strip().startswith("#1 ")), "")
+                fails = ["sanitizer report while running the case (answers were right): %s | %s" % (reps[0][:160], site[:200])]
         if replay:
             for i, cmd in enumerate(c.cmds):
                 print("cmd  :", cmd[:300])
